@@ -89,18 +89,18 @@ func ruleActiveFlushed(r *Run, rule string, k *storeKind) {
 		if fn == nil {
 			continue
 		}
-		bump := callsTo(fn, "atomic.Uint32).Add")
-		esc := reachAvoid(fn, nil, func(in ssa.Instruction) bool {
-			ret, ok := in.(*ssa.Return)
-			return ok && classifyErr(ret) != ErrNonNil
-		}, func(in ssa.Instruction) bool {
-			for _, b := range bump {
-				if in == ssa.Instruction(b) {
-					return true
-				}
+		// the bump itself, or a call to a helper of the memtable that always performs it (accountFor)
+		isBump := liftMust(fn, func(in ssa.Instruction) bool {
+			c, ok := in.(*ssa.Call)
+			return ok && strings.HasSuffix(calleeName(c.Common()), "atomic.Uint32).Add")
+		}, 2)
+		var bump []ssa.Instruction
+		allInstrs(fn, func(in ssa.Instruction) {
+			if isBump(in) {
+				bump = append(bump, in)
 			}
-			return false
 		})
+		esc := successEscapesWrap(fn, isBump)
 		r.Check(esc == nil && len(bump) > 0, rule, "active:count:"+m, w.Pos(fn.Pos())+" "+m, "every successful add bumps the document count the rotation guard reads", "a successful add does not bump the document count: a non-empty memtable may look empty to Flush")
 	}
 }
@@ -440,7 +440,7 @@ func ruleSegmentIDs(r *Run, rule string, k *storeKind) {
 			// argmax shape: phi of (max, id) controlled by id > max
 			allInstrs(initFn, func(in ssa.Instruction) {
 				if bo, ok := in.(*ssa.BinOp); ok && bo.Op == token.GTR {
-					if strings.Contains(ci.S(bo.X), "strconv.ParseUint(") && (bo.Y == ssa.Value(ph) || isPhiOf(bo.Y, ph)) {
+					if (strings.Contains(ci.S(bo.X), "strconv.ParseUint(") || parsedByHelper(w, bo.X) != nil) && (bo.Y == ssa.Value(ph) || isPhiOf(bo.Y, ph)) {
 						okMax = true
 					}
 				}
@@ -449,32 +449,42 @@ func ruleSegmentIDs(r *Run, rule string, k *storeKind) {
 	}
 	r.Check(okMax, rule, "ids:init:max", w.Pos(initFn.Pos())+" "+w.Name(initFn), "the counter starts at the maximum parsed id", "the counter is not initialised to the maximum id found")
 	okBase, restricted, scansDir := false, "", false
+	scan := func(fn *ssa.Function) {
+		cs := NewCanon(w)
+		allInstrs(fn, func(in ssa.Instruction) {
+			call, ok := in.(*ssa.Call)
+			if !ok {
+				return
+			}
+			switch calleeName(call.Common()) {
+			case "strconv.ParseUint":
+				if cs.S(call.Call.Args[1]) == "c(10)" {
+					okBase = true
+				}
+			case "strings.HasPrefix":
+				if s, ok := constString(call.Call.Args[1]); ok {
+					restricted = s
+				}
+			case "os.ReadDir":
+				scansDir = true
+			}
+		})
+	}
+	scan(initFn)
+	// the file-name parser may be a package function of its own (segmentIDFromFileName)
 	allInstrs(initFn, func(in ssa.Instruction) {
-		call, ok := in.(*ssa.Call)
-		if !ok {
-			return
-		}
-		switch calleeName(call.Common()) {
-		case "strconv.ParseUint":
-			if ci.S(call.Call.Args[1]) == "c(10)" {
-				okBase = true
+		if ex, ok := in.(*ssa.Extract); ok {
+			if g := parsedByHelper(w, ex); g != nil {
+				scan(g)
+				r.Analysed(w.Name(g))
 			}
-		case "strings.HasPrefix":
-			if s, ok := constString(call.Call.Args[1]); ok {
-				restricted = s
-			}
-		case "os.ReadDir":
-			scansDir = true
 		}
 	})
 	r.Check(okBase, rule, "ids:init:base10", w.Pos(initFn.Pos())+" "+w.Name(initFn), "zero-padded ids are parsed in base 10", "ids are not parsed in base 10 (000008 / 000009 are not octal)")
 	r.Check(scansDir && restricted == "", rule, "ids:init:all-files", w.Pos(initFn.Pos())+" "+w.Name(initFn), "every segment-like file name of the directory counts (partial segments keep their id reserved)", "the id scan is restricted (prefix "+restricted+", own directory scan="+fmt.Sprint(scansDir)+"): ids of partial segments can be reused")
 	// the provider constructor initialises the counter on every success path
 	if ctor := w.Fn("newStorageProvider"); ctor != nil {
-		esc := reachAvoid(ctor, nil, func(in ssa.Instruction) bool {
-			ret, ok := in.(*ssa.Return)
-			return ok && classifyErr(ret) != ErrNonNil
-		}, func(in ssa.Instruction) bool {
+		esc := successEscapesWrap(ctor, func(in ssa.Instruction) bool {
 			call, ok := in.(*ssa.Call)
 			return ok && staticCallee(call.Common()) == initFn
 		})
@@ -805,7 +815,22 @@ func ruleWhoMayWriteFiles(r *Run, rule string, k *storeKind) {
 	// deleteSegment is only called by compaction
 	for _, fn := range w.Funcs {
 		for _, call := range callsTo(fn, ".deleteSegment") {
-			r.Check(fn == k.Compact, rule, "who-may:deleteSegment:"+w.Name(fn), w.InstrPos(call)+" "+w.Name(fn), "segments are deleted only by compaction", "deleteSegment is called from "+w.Name(fn))
+			okWho := fn == k.Compact
+			if !okWho {
+				// a phase of compaction extracted into its own method: every caller is the compaction routine
+				n, other := 0, 0
+				for _, g := range w.Funcs {
+					for range callsIn(g, func(cc *ssa.CallCommon) bool { return staticCallee(cc) == fn }) {
+						if g == k.Compact {
+							n++
+						} else {
+							other++
+						}
+					}
+				}
+				okWho = n > 0 && other == 0 && !addressTaken(w, fn)
+			}
+			r.Check(okWho, rule, "who-may:deleteSegment:"+w.Name(fn), w.InstrPos(call)+" "+w.Name(fn), "segments are deleted only by compaction", "deleteSegment is called from "+w.Name(fn))
 		}
 	}
 	// cleanup after a failed write removes only the files just created (paths of the fresh id)
@@ -814,9 +839,25 @@ func ruleWhoMayWriteFiles(r *Run, rule string, k *storeKind) {
 		okRm := true
 		for _, call := range callsTo(fn, "os.Remove") {
 			arg := call.Call.Args[0]
-			s := c.S(arg)
-			_, isParam := arg.(*ssa.Parameter)
-			if !(strings.Contains(s, "segmentPaths(") || isParam) {
+			fresh := func(v ssa.Value) bool {
+				_, isParam := v.(*ssa.Parameter)
+				return isParam || strings.Contains(c.S(v), "segmentPaths(")
+			}
+			okArg := fresh(arg)
+			if ld, ok := arg.(*ssa.UnOp); ok && !okArg && ld.Op == token.MUL {
+				// an element of a local list of the paths created so far
+				if ia, ok := ld.X.(*ssa.IndexAddr); ok {
+					if elems, okE := sliceElems(ia.X); okE && len(elems) > 0 {
+						okArg = true
+						for _, e := range elems {
+							if !fresh(e) {
+								okArg = false
+							}
+						}
+					}
+				}
+			}
+			if !okArg {
 				okRm = false
 			}
 		}
@@ -887,10 +928,7 @@ func ruleOwnership(r *Run, p string, k *storeKind) {
 			st, ok := in.(*ssa.Store)
 			return ok && c.S(st.Addr) == "P0.lockFile" && c.S(st.Val) != "nil"
 		}
-		esc := reachAvoid(acq, nil, func(in ssa.Instruction) bool {
-			ret, ok := in.(*ssa.Return)
-			return ok && classifyErr(ret) != ErrNonNil
-		}, isRec)
+		esc := successEscapesWrap(acq, isRec)
 		r.Check(esc == nil, p+".RELEASE", "lock:recorded", w.Pos(acq.Pos())+" "+w.Name(acq), "a successful acquisition records the lock file in the provider (release depends on it)", "acquisition can succeed without recording the lock file: a later release is a no-op")
 		// failure after creation removes the file
 		for _, ret := range returnsOf(acq) {
@@ -1116,38 +1154,143 @@ func indexFieldOfStore(k *storeKind) string {
 	return indexFieldOf(k.SearchT, k.T)
 }
 
+// closedTest finds the branch on <recv>.closed in fn: whether its true arm leaves with a non-nil error and whether the
+// flag is loaded while <recv>.mu is held (a lock call dominates the load and no unlock lies between them).
+func closedTest(w *World, fn *ssa.Function, recv string) (test *ssa.If, okErr, locked bool) {
+	c := NewCanon(w)
+	allInstrs(fn, func(in ssa.Instruction) {
+		if iff, ok := in.(*ssa.If); ok && c.S(iff.Cond) == recv+".closed" && test == nil {
+			test = iff
+		}
+	})
+	if test == nil {
+		return nil, false, false
+	}
+	t := test.Block().Succs[0]
+	if ret, ok := t.Instrs[len(t.Instrs)-1].(*ssa.Return); ok && classifyErr(ret) == ErrNonNil {
+		okErr = true
+	}
+	load, _ := test.Cond.(ssa.Instruction)
+	if load == nil {
+		return test, okErr, false
+	}
+	var locks, unlocks []ssa.Instruction
+	allInstrs(fn, func(in ssa.Instruction) {
+		if call, ok := in.(*ssa.Call); ok && len(call.Call.Args) > 0 && c.S(call.Call.Args[0]) == recv+".mu" {
+			switch calleeName(call.Common()) {
+			case "(*sync.RWMutex).RLock", "(*sync.RWMutex).Lock":
+				locks = append(locks, in)
+			case "(*sync.RWMutex).RUnlock", "(*sync.RWMutex).Unlock":
+				unlocks = append(unlocks, in)
+			}
+		}
+	})
+	for _, l := range locks {
+		if !domInstr(l, load) {
+			continue
+		}
+		held := true
+		for _, u := range unlocks {
+			if domInstr(l, u) && domInstr(u, load) {
+				held = false
+			}
+		}
+		if held {
+			locked = true
+		}
+	}
+	return test, okErr, locked
+}
+
+// parsedByHelper: v is result #0 of a call to a comet function whose result #0 is, on some return, the value of
+// strconv.ParseUint; returns that function.
+func parsedByHelper(w *World, v ssa.Value) *ssa.Function {
+	ex, ok := v.(*ssa.Extract)
+	if !ok || ex.Index != 0 {
+		return nil
+	}
+	call, ok := ex.Tuple.(*ssa.Call)
+	if !ok {
+		return nil
+	}
+	g := staticCallee(call.Common())
+	if g == nil || g.Pkg != w.SPkg {
+		return nil
+	}
+	c := NewCanon(w)
+	for _, ret := range returnsOf(g) {
+		if len(ret.Results) > 0 && strings.HasPrefix(c.S(ret.Results[0]), "strconv.ParseUint(") {
+			return g
+		}
+	}
+	return nil
+}
+
+// addressTaken: fn is used as a value (method value, closure binding, go/defer target through a value) somewhere.
+func addressTaken(w *World, fn *ssa.Function) bool {
+	taken := false
+	for _, g := range w.Funcs {
+		allInstrs(g, func(in ssa.Instruction) {
+			for _, op := range in.Operands(nil) {
+				if *op != ssa.Value(fn) {
+					continue
+				}
+				if ci, ok := in.(ssa.CallInstruction); ok && ci.Common().Value == ssa.Value(fn) {
+					continue // the callee position of a static call
+				}
+				taken = true
+			}
+		})
+	}
+	return taken
+}
+
 // ruleClosedFirst: the operation tests `closed` under the store mutex and fails before touching queue / segments / provider.
 func ruleClosedFirst(r *Run, rule string, fn *ssa.Function, recv string) {
 	w := r.W
 	name := w.Name(fn)
 	r.Analysed(name)
 	c := NewCanon(w)
-	var test *ssa.If
-	allInstrs(fn, func(in ssa.Instruction) {
-		if iff, ok := in.(*ssa.If); ok && c.S(iff.Cond) == recv+".closed" && test == nil {
-			test = iff
-		}
-	})
 	site := w.Pos(fn.Pos()) + " " + name
+	test, okErr, locked := closedTest(w, fn, recv)
+	if test == nil {
+		// the test extracted into a method of the same receiver whose error is returned at once:
+		// if err := s.errIfClosed(); err != nil { return …, err }
+		for _, cs := range callsIn(fn, func(cc *ssa.CallCommon) bool {
+			g := staticCallee(cc)
+			return g != nil && g.Pkg == w.SPkg && g.Signature.Recv() != nil && len(cc.Args) == 1 && c.S(cc.Args[0]) == recv && errIndex(g) == 0 && g.Signature.Results().Len() == 1
+		}) {
+			call, ok := cs.(*ssa.Call)
+			if !ok || test != nil {
+				continue
+			}
+			g := staticCallee(call.Common())
+			ht, hErr, hLocked := closedTest(w, g, "P0")
+			if ht == nil || !hErr || !hLocked {
+				continue
+			}
+			// the helper's error is tested right away and a non-nil one leaves the operation
+			for _, ref := range *call.Referrers() {
+				bo, ok := ref.(*ssa.BinOp)
+				if !ok || bo.Op != token.NEQ {
+					continue
+				}
+				for _, rr := range *bo.Referrers() {
+					if iff, ok := rr.(*ssa.If); ok {
+						t := iff.Block().Succs[0]
+						if ret, ok := t.Instrs[len(t.Instrs)-1].(*ssa.Return); ok && classifyErr(ret) == ErrNonNil {
+							test, okErr, locked = iff, true, true
+							r.Analysed(w.Name(g))
+						}
+					}
+				}
+			}
+		}
+	}
 	if test == nil {
 		r.Bad(rule, "closed-first:"+name, site, "the operation does not test the closed flag")
 		return
 	}
-	t := test.Block().Succs[0]
-	okErr := false
-	if ret, ok := t.Instrs[len(t.Instrs)-1].(*ssa.Return); ok && classifyErr(ret) == ErrNonNil {
-		okErr = true
-	}
-	// read under the mutex
-	locked := false
-	allInstrs(fn, func(in ssa.Instruction) {
-		if call, ok := in.(*ssa.Call); ok {
-			n := calleeName(call.Common())
-			if (n == "(*sync.RWMutex).RLock" || n == "(*sync.RWMutex).Lock") && c.S(call.Call.Args[0]) == recv+".mu" && domInstr(in, test) {
-				locked = true
-			}
-		}
-	})
 	// dominates every use of the components
 	okDom := true
 	allInstrs(fn, func(in ssa.Instruction) {
